@@ -398,6 +398,15 @@ pub fn exec(rest: &str, out: &mut Out) -> (String, bool) {
                 }
                 Ok(sj) => {
                     let back = Value::from_serde_json(sj.clone());
+                    // the trait entry points are the same conversions
+                    {
+                        let via_from = std::panic::catch_unwind(|| serde_json::Value::from(v.clone()));
+                        let via_into: Result<serde_json::Value, _> = std::panic::catch_unwind(|| v.clone().into());
+                        out.oracle(via_from.as_ref().map_or(false, |x| *x == sj) && via_into.as_ref().map_or(false, |x| *x == sj), "From<Value> for serde_json::Value / Into = into_serde_json", || format!("{} -> {:?}", show_value(&v), via_from.as_ref().map(|x| x.to_string())));
+                        let b2 = Value::from(sj.clone());
+                        let b3: Value = sj.clone().into();
+                        out.oracle(b2 == back && b3 == back, "From<serde_json::Value> for Value / Into = from_serde_json", || format!("{} -> {}", sj, show_value(&b2)));
+                    }
                     if in_domain(&v) {
                         out.oracle(crate::canon::same_shape_pub(&v, &back), "json-syntax -> serde_json -> json-syntax: equal up to entry order and number spelling", || format!("{} -> {}", show_value(&v), show_value(&back)));
                         out.count("sj_in_domain");
